@@ -196,6 +196,8 @@ impl<'t> Parser<'t> {
     pub(crate) fn start(&mut self) -> Marker {
         let pos = self.events.len() as u32;
         self.push_event(Event::tombstone());
+        #[cfg(oq3_verif)]
+        crate::verif::on_op("start", pos, 0);
         Marker::new(pos)
     }
 
@@ -249,6 +251,8 @@ impl<'t> Parser<'t> {
     /// does.
     pub(crate) fn error<T: Into<String>>(&mut self, message: T) {
         let msg = message.into();
+        #[cfg(oq3_verif)]
+        crate::verif::on_op("error", 0, 0);
         self.push_event(Event::Error { msg });
     }
 
@@ -300,6 +304,8 @@ impl<'t> Parser<'t> {
         self.steps.set(0);
         #[cfg(oq3_verif)]
         crate::verif::on_bump();
+        #[cfg(oq3_verif)]
+        crate::verif::on_op("bump", n_raw_tokens as u32, kind as u32);
         self.push_event(Event::Token { kind, n_raw_tokens });
     }
 
@@ -337,6 +343,8 @@ impl Marker {
             _ => unreachable!(),
         }
         p.push_event(Event::Finish);
+        #[cfg(oq3_verif)]
+        crate::verif::on_op("complete", self.pos, kind as u32);
         CompletedMarker::new(self.pos, kind)
     }
 
@@ -344,6 +352,8 @@ impl Marker {
     /// are attached to its parent instead.
     pub(crate) fn abandon(mut self, p: &mut Parser<'_>) {
         self.bomb.defuse();
+        #[cfg(oq3_verif)]
+        crate::verif::on_op("abandon", self.pos, 0);
         let idx = self.pos as usize;
         if idx == p.events.len() - 1 {
             match p.events.pop() {
@@ -390,6 +400,8 @@ impl CompletedMarker {
             }
             _ => unreachable!(),
         }
+        #[cfg(oq3_verif)]
+        crate::verif::on_op("precede", self.pos, new_pos.pos);
         new_pos
     }
 
@@ -403,6 +415,8 @@ impl CompletedMarker {
             }
             _ => unreachable!(),
         }
+        #[cfg(oq3_verif)]
+        crate::verif::on_op("extend_to", self.pos, m.pos);
         self
     }
 
